@@ -263,12 +263,21 @@ def open_mode(n):
 
 def recv_root(v):
     """Follow receiver / base links to the value a call chain starts from."""
+    subs = 0
     for _ in range(20):
         if not isinstance(v, Val):
             return None
+        if v.kind == "sub":
+            subs += 1
+            if subs > 1:
+                return None  # handle[name][0]...: what is loaded out of a dataset is data
         if v.kind == "call" and v.args[1] is not None:
+            if v.args[0] in READ_HANDLE_METHODS or v.args[0] in PURE_HANDLE_METHODS:
+                return None  # what a read returns is data, not the backend handle
             v = v.args[1]
-        elif v.kind in ("sub", "elem"):
+        elif v.kind == "elem":
+            return None  # an element obtained by iterating is data
+        elif v.kind == "sub":
             v = v.args[0]
         else:
             return v
